@@ -162,6 +162,12 @@ def register(R):
             'admitted_without_wait_only_within_allowance': implies(
                 z3.And(monotone(c), z3.Not(was), z3.Not(is_none(last0))),
                 tracker(c.old, c.self)[0] * amt <= mx * (t - ov(last0)) if t is not None else B(False)),
+            # every granted amount is charged to the rate tracker at the current time (else later admissions are judged
+            # against a stale rate and the limit is not enforced)
+            'granted_amount_is_recorded_in_the_rate_tracker_now': (z3.And(
+                z3.Not(is_none(tracker(c.new, c.self)[1])), ov(tracker(c.new, c.self)[1]) == t,
+                implies(is_none(last0), z3.And(z3.Not(is_none(tracker(c.new, c.self)[2])), ov(tracker(c.new, c.self)[2]) == 0)))
+                if t is not None else B(False)),
         }
         return out
 
@@ -278,6 +284,12 @@ def register(R):
         loops={0: LoopSpec(invariant=lambda l: {}, iteration_checks=ctlb_iteration)},
         raise_when={'Exception': lambda c: None},
     )
+
+    # botocore's request-created handlers (through the body, see a_windows.py) switch throttling on while the body is sent
+    for nm, val in (('signal_transferring', True), ('signal_not_transferring', False)):
+        R.contract(f'{BLS}.{nm}', props=['C13'], params={}, raises={}, top_level=True,
+                   ensures=lambda c, val=val: {'throttling_is_switched_' + ('on' if val else 'off'):
+                                               b2z(c.newf('_bandwidth_limiting_enabled')) == B(val)})
 
     def read_post(c):
         rd = exts(c.trace, 'fileobj.read')
